@@ -217,9 +217,18 @@ def okProgram (P : Str) (alph : List Char) (l : Location) (prog : List Step) (an
         | some e0 =>
           match runSteps alph e0 prog, ans with
           | none, a => a.isNone
-          | some (_, pl), none => !pl
+          | some (_, pl), none => !pl || loc.len == 0   -- a location without positions has no sub-intervals (see C01)
           | some (d, _), some o =>
-            o.data == d && consistent P alph (nonOverlap loc.blocks) (!d.isEmpty) o
+            -- a self-overlapping layout cannot record the order of its positions (C01): the location of a
+            -- single slice still covers the right multiset; after a reverse complement or a chain of steps
+            -- only the characters are claimed
+            o.data == d &&
+            (if nonOverlap loc.blocks then consistent P alph true (!d.isEmpty) o
+             else match prog with
+               | [] => consistent P alph true (!d.isEmpty) o
+               | [.sl _ _ _] => consistent P alph false (!d.isEmpty) o
+               | [.ix _] => consistent P alph false (!d.isEmpty) o
+               | _ => true)
 
 def spanStart (bs : List Blk) : Nat := bs.foldl (fun m b => min m b.1) (match bs with | b :: _ => b.1 | [] => 0)
 def spanEnd (bs : List Blk) : Nat := bs.foldl (fun m b => max m b.2) 0
@@ -240,14 +249,15 @@ def okAppend (P : Str) (alph : List Char) (exact : Bool) (x y : ObjAns) (ans : O
   match ans with
   | some o =>
     o.data == x.data ++ y.data &&
-    (match locOf x, locOf y with
-     | some lx, some ly =>
-       consistent P alph exact (appendCompatible lx ly) o
-     | _, _ => consistent P alph exact false o)
+    (if !exact then true        -- self-overlapping operands: only the characters are claimed
+     else match locOf x, locOf y with
+       | some lx, some ly => consistent P alph true (appendCompatible lx ly) o
+       | _, _ => consistent P alph true false o)
   | none =>
     -- refusing is wrong only for a compatible pair
-    match locOf x, locOf y with
-    | some lx, some ly => !appendCompatible lx ly
-    | _, _ => true
+    if !exact then true
+    else match locOf x, locOf y with
+      | some lx, some ly => !appendCompatible lx ly
+      | _, _ => true
 
 end BioCantor.Spec.Sq
